@@ -88,6 +88,29 @@ func rtpLoop(data []byte, fresh bool) []RtpStep {
 	}
 }
 
+// rtpLoopWith: the loop with one caller-supplied Packet that is never renewed
+func rtpLoopWith(data []byte, p *jt1078.Packet) []RtpStep {
+	var out []RtpStep
+	cur := exact(data)
+	for steps := 0; ; steps++ {
+		if len(cur) == 0 {
+			return append(out, RtpStep{Class: "End"})
+		}
+		if steps > len(data)+2 {
+			return append(out, RtpStep{Class: "NoProgress"})
+		}
+		st := rtpOne(cur, p)
+		out = append(out, st)
+		if st.Class != "Packet" {
+			return out
+		}
+		if len(st.rest) >= len(cur) {
+			return append(out, RtpStep{Class: "NoProgress"})
+		}
+		cur = st.rest
+	}
+}
+
 type rtpCase struct {
 	Data B         `json:"data"`
 	Out  []RtpStep `json:"out"`
@@ -125,6 +148,8 @@ func init() {
 		n := 0
 		classes := map[string]int{}
 		var samples []any
+		var prevData []byte
+		var prevCase rtpCase
 		err := readND(a[0], func(i int, raw []byte) error {
 			var c rtpCase
 			if err := jsonUnmarshal(raw, &c); err != nil {
@@ -140,6 +165,43 @@ func init() {
 			if len(got) != len(c.Out) {
 				out.put(mismatch{"loop-length-differs then-" + last, fmt.Sprintf("got %d steps %+v", len(got), got), c})
 				return nil
+			}
+			// the same stream through a Packet that has been used before: for the previous case cut short (body too short), for the
+			// previous case in full, then for this stream without ever being renewed - nothing of its history may show
+			reused := jt1078.NewPacket()
+			if len(prevData) > 1 {
+				rtpOne(exact(prevData[:len(prevData)-1]), reused)
+				rtpOne(exact(prevData[:len(prevData)/2]), reused)
+			}
+			if len(c.Data)%2 == 0 && len(prevData) > 0 { // (chosen by content, not position: a replay sees the same history)
+				rtpOne(exact(prevData), reused)
+			}
+			again := rtpLoopWith(c.Data, reused)
+			pair := []rtpCase{prevCase, c} // the replay needs the predecessor as well
+			prevData = append(prevData[:0], c.Data...)
+			prevCase = c
+			if len(again) != len(got) {
+				out.put(mismatch{"reused-packet-differs steps", fmt.Sprintf("fresh %d steps, reused %d steps", len(got), len(again)), pair})
+				return nil
+			}
+			for k := range again {
+				if !stepEq(again[k], got[k]) {
+					out.put(mismatch{"reused-packet-differs class=" + got[k].Class, fmt.Sprintf("step %d fresh %+v reused %+v", k, got[k], again[k]), pair})
+					return nil
+				}
+			}
+			// locality: whatever follows the first packet in the buffer (also more than 64 KiB of it) changes neither the packet nor
+			// where the remainder starts
+			if i%20 == 0 && got[0].Class == "Packet" {
+				for h := 0; h <= 40; h += 4 {
+					t := 65536 - len(c.Data) + h
+					big := append(append([]byte{}, c.Data...), make([]byte, t)...)
+					st := rtpOne(exact(big), jt1078.NewPacket())
+					if !stepEq(st, got[0]) || len(st.rest) != len(got[0].rest)+t {
+						out.put(mismatch{"long-buffer-differs class=" + st.Class, fmt.Sprintf("%d bytes appended: got %+v (rest %d) want %+v (rest %d)", t, st, len(st.rest), got[0], len(got[0].rest)+t), c})
+						return nil
+					}
+				}
 			}
 			for k := range got {
 				if !stepEq(got[k], c.Out[k]) {
